@@ -528,6 +528,136 @@ func c16TCP(c *Ctx, cpw, spw, cmd, resp []byte) bool {
 	return true
 }
 
+// ---------- the real DialRCON against a scripted peer on loopback TCP ----------
+
+// c16ResolveID turns an id mode of a dial script into the id the scripted server sends, relative to the request
+// id R of the login frame it has just read: "same" = R, "neg1" = -1, "add<k>" (k >= 1) = R+k (never R, never -1
+// because R >= 0), "abs<hex8>" = that id, bumped by one if it happens to equal R (so it is always foreign).
+func c16ResolveID(mode string, R int32) int32 {
+	switch {
+	case mode == "same":
+		return R
+	case mode == "neg1":
+		return -1
+	case strings.HasPrefix(mode, "add"):
+		k, _ := strconv.ParseInt(mode[3:], 10, 64)
+		return int32(uint32(R) + uint32(k))
+	case strings.HasPrefix(mode, "abs"):
+		v := p8(mode[3:])
+		if v != -1 && v == R {
+			v++
+		}
+		return v
+	}
+	return R
+}
+
+// c16ScriptBytes: what the scripted server sends after the login frame. Items: f/<id>/<type>/<payload> a frame,
+// t/<id>/<type>/<payload>/<cut> the first <cut> bytes of a frame, raw/<hex> raw bytes.
+func c16ScriptBytes(script string, R int32) []byte {
+	var out []byte
+	if script == "-" {
+		return out
+	}
+	for _, it := range strings.Split(script, ",") {
+		f := strings.Split(it, "/")
+		switch f[0] {
+		case "f":
+			out = append(out, c16Frame(c16ResolveID(f[1], R), p8(f[2]), unhx(f[3]))...)
+		case "t":
+			fr := c16Frame(c16ResolveID(f[1], R), p8(f[2]), unhx(f[3]))
+			cut, _ := strconv.Atoi(f[4])
+			if cut > len(fr) {
+				cut = len(fr)
+			}
+			out = append(out, fr[:cut]...)
+		case "raw":
+			out = append(out, unhx(f[1])...)
+		}
+	}
+	return out
+}
+
+// c16Dial runs the real DialRCON against a scripted server on 127.0.0.1:0. The server parses the login frame by
+// hand (not with the library), answers with the scripted bytes and closes. Script "x…": close without reading.
+// Returns false if the sandbox refuses loopback TCP.
+func c16Dial(c *Ctx, pw []byte, script string) bool {
+	l, err := net.Listen("tcp", "127.0.0.1:0")
+	if err != nil {
+		return false
+	}
+	defer l.Close()
+	if tl, ok := l.(*net.TCPListener); ok {
+		tl.SetDeadline(time.Now().Add(5 * time.Second))
+	}
+	seen, rsign := "none", "?"
+	srvDone := make(chan struct{})
+	go func() {
+		defer close(srvDone)
+		conn, err := l.Accept()
+		if err != nil {
+			seen = "noconn"
+			return
+		}
+		defer conn.Close()
+		conn.SetDeadline(time.Now().Add(3 * time.Second))
+		if strings.HasPrefix(script, "x") {
+			return
+		}
+		var lw [4]byte
+		if _, err := io.ReadFull(conn, lw[:]); err != nil {
+			seen = "short"
+			return
+		}
+		L := int32(uint32(lw[0]) | uint32(lw[1])<<8 | uint32(lw[2])<<16 | uint32(lw[3])<<24)
+		if L < 10 || L > 4096 {
+			seen = "big"
+			return
+		}
+		body := make([]byte, L)
+		if _, err := io.ReadFull(conn, body); err != nil {
+			seen = "short"
+			return
+		}
+		R := int32(uint32(body[0]) | uint32(body[1])<<8 | uint32(body[2])<<16 | uint32(body[3])<<24)
+		T := int32(uint32(body[4]) | uint32(body[5])<<8 | uint32(body[6])<<16 | uint32(body[7])<<24)
+		seen = h8(T) + ":" + hx(body[8:L-2])
+		rsign = "+"
+		if R < 0 {
+			rsign = "-"
+		}
+		conn.Write(c16ScriptBytes(script, R))
+	}()
+	dial := ""
+	g := guardT(8*time.Second, func() {
+		cl, err := mcnet.DialRCON(l.Addr().String(), string(pw))
+		if err != nil {
+			dial = "err"
+		} else {
+			dial = "ok"
+		}
+		if rc, ok := cl.(*mcnet.RCONConn); ok && rc != nil && rc.Conn != nil {
+			rc.Conn.Close()
+		}
+	})
+	obs := ""
+	if g != "" {
+		obs = g
+	} else {
+		select {
+		case <-srvDone:
+			if seen == "noconn" {
+				return false
+			}
+			obs = fmt.Sprintf("dial=%s seen=%s rsign=%s", dial, seen, rsign)
+		case <-time.After(6 * time.Second):
+			obs = "hang"
+		}
+	}
+	c.Emit("rcon.dial", []string{hx(pw), script}, obs)
+	return true
+}
+
 // ---------- replay ----------
 
 func replayC16(c *Ctx, op string, a []string) bool {
@@ -544,6 +674,8 @@ func replayC16(c *Ctx, op string, a []string) bool {
 		c16Sess(c, p8(a[0]), unhx(a[1]), unhx(a[2]), parseSteps(a[3]))
 	case "rcon.tcp":
 		c16TCP(c, unhx(a[0]), unhx(a[1]), unhx(a[2]), unhx(a[3]))
+	case "rcon.dial":
+		c16Dial(c, unhx(a[0]), a[1])
 	default:
 		return false
 	}
@@ -894,6 +1026,63 @@ func genC16(c *Ctx) {
 			}
 		}
 		c16Sess(c, r, cpw, spw, mkSteps(r, c.R.Intn(7), c.R.Intn(3) == 0))
+	}
+
+	// --- the real DialRCON against a scripted peer (loopback TCP): the login response under the client's id,
+	// under -1, under foreign ids (R+1, 0, random), with any type, preceded by / consisting of junk, truncated
+	// frames, bad size words, or nothing at all. Skipped silently if 127.0.0.1 cannot be bound.
+	c16IDModes := []string{"same", "neg1", "add1", "add2", "add256", "add65536", "add2147483647", "abs00000000", "abs00000001",
+		"abs7fffffff", "abs80000000", "absfffffffe", "abs01020304"}
+	dialOK := true
+	dial := func(pw []byte, script string) {
+		if dialOK {
+			dialOK = c16Dial(c, pw, script)
+		}
+	}
+	for _, m := range c16IDModes {
+		dial([]byte("pw"), "f/"+m+"/"+h8(2)+"/-")
+		dial([]byte("pw"), "f/"+m+"/"+h8(c.c16Type())+"/"+hx(c.c16Bytes(c.R.Intn(6))))
+	}
+	dial([]byte("pw"), "-")
+	dial([]byte("pw"), "x")
+	dial(nil, "f/same/"+h8(2)+"/-")
+	dial(c.c16Bytes(4086), "f/same/"+h8(2)+"/-")
+	dial(c.c16Bytes(4087), "f/same/"+h8(2)+"/-")
+	dial([]byte("pw"), "f/add1/"+h8(2)+"/-,f/same/"+h8(2)+"/-") // the right answer comes second: too late
+	dial([]byte("pw"), "f/same/"+h8(2)+"/-,f/neg1/"+h8(2)+"/-")
+	dial([]byte("pw"), "t/same/"+h8(2)+"/-/13")
+	dial([]byte("pw"), "raw/09000000,f/same/"+h8(2)+"/-")
+	dial([]byte("pw"), "raw/01100000,f/same/"+h8(2)+"/-")
+	dial([]byte("pw"), "f/same/"+h8(2)+"/"+hx(c.c16Bytes(4086)))
+	dial([]byte("pw"), "f/same/"+h8(2)+"/"+hx(c.c16Bytes(4087)))
+	for i := 0; i < c.N(120, 3000); i++ {
+		pw := c.c16Bytes(c.R.Intn(10))
+		var items []string
+		for j := c.R.Intn(3); j >= 0; j-- {
+			m := c16IDModes[c.R.Intn(len(c16IDModes))]
+			switch c.R.Intn(8) {
+			case 0:
+				m = "add" + strconv.Itoa(1+c.R.Intn(0x7fffffff))
+			case 1:
+				m = "abs" + h8(c.c16Int())
+			case 2, 3:
+				m = "same"
+			}
+			typ := int32(2)
+			if c.R.Intn(3) == 0 {
+				typ = c.c16Type()
+			}
+			pl := hx(c.c16Bytes(c.R.Intn(8)))
+			switch c.R.Intn(10) {
+			case 0:
+				items = append(items, "t/"+m+"/"+h8(typ)+"/"+pl+"/"+strconv.Itoa(c.R.Intn(14)))
+			case 1:
+				items = append(items, "raw/"+hx(append(le32b([]int32{9, 4097, -1, 0, 10}[c.R.Intn(5)]), c.c16Bytes(c.R.Intn(12))...)))
+			default:
+				items = append(items, "f/"+m+"/"+h8(typ)+"/"+pl)
+			}
+		}
+		dial(pw, strings.Join(items, ","))
 	}
 
 	// --- the real DialRCON/ListenRCON over loopback TCP, if binding 127.0.0.1 is allowed (else skipped silently).
